@@ -48,6 +48,41 @@ type CatSc struct {
 	// Observers is the number of extra threads that only call the read-only port methods
 	// (IsOpen, String, Number) while the lifecycle threads work.
 	Observers int `json:"observers,omitempty"`
+	// Listen options used by every Listen of the in thread, and whether the in helper mixes
+	// active-sense, timing-clock and sysex records into its output (C14 on this driver).
+	ActiveSense bool `json:"active_sense,omitempty"`
+	TimeCode    bool `json:"timing_clock,omitempty"`
+	SysEx       bool `json:"sysex,omitempty"`
+	Mix         bool `json:"mix,omitempty"`
+}
+
+// inRecMsg is the message carried by record k of the in helper.
+func (s *CatSc) inRecMsg(k int64) []byte {
+	if s.Mix {
+		switch k % 6 {
+		case 1:
+			return []byte{0xFE}
+		case 3:
+			return []byte{0xF8}
+		case 5:
+			return []byte{0xF0, byte(k >> 7 & 0x7F), byte(k & 0x7F), 0xF7}
+		}
+	}
+	return recMsg(k)
+}
+
+// filtered reports whether the listen options keep record k from the listener.
+func (s *CatSc) filtered(k int64) bool {
+	m := s.inRecMsg(k)
+	switch {
+	case m[0] == 0xFE:
+		return !s.ActiveSense
+	case m[0] == 0xF8:
+		return !s.TimeCode
+	case m[0] == 0xF0:
+		return !s.SysEx
+	}
+	return false
 }
 
 type catWorld struct{}
@@ -72,6 +107,10 @@ func (catWorld) Gen(seed uint64, tier string) core.Scenario {
 	}
 	if mode == 0 || mode == 2 {
 		s.InHelper = HelperCfg{Gap: r.PickInt(1, 1, 2, 5, 20)}
+		if r.Chance(1, 3) {
+			s.Mix = true
+			s.ActiveSense, s.TimeCode, s.SysEx = r.Bool(), r.Bool(), r.Bool()
+		}
 		if r.Chance(1, 5) {
 			s.InHelper.FailStarts = []int{r.Intn(2)}
 		}
@@ -256,6 +295,13 @@ func (s *CatSc) Shrinks(try0 func(core.Scenario) bool) bool {
 	if s.Observers > 0 {
 		c := *s
 		c.Observers = 0
+		if try(&c) {
+			return true
+		}
+	}
+	if s.Mix {
+		c := *s
+		c.Mix, c.ActiveSense, c.TimeCode, c.SysEx = false, false, false, false
 		if try(&c) {
 			return true
 		}
@@ -465,7 +511,7 @@ func (w *world) runInHelper(h *helper) {
 			return // a dead helper just stops writing
 		}
 		k := w.takeRec()
-		line := encodeLine(int32(k), recMsg(k))
+		line := encodeLine(int32(k), w.sc.inRecMsg(k))
 		logEvent("emit-start", k, 0, "")
 		_, err := out.Write(line)
 		if err != nil {
@@ -631,7 +677,7 @@ func (s *CatSc) execute(env *core.Env) (ro runOut) {
 						do("in", i, "listen", func() (error, int64) {
 							stop, err := in.Listen(func(b []byte, ms int32) {
 								logEvent("callback", j, int64(ms), string(b))
-							}, drivers.ListenConfig{})
+							}, drivers.ListenConfig{ActiveSense: s.ActiveSense, TimeCode: s.TimeCode, SysEx: s.SysEx})
 							if err == nil {
 								stops = append(stops, stop)
 							} else {
